@@ -338,6 +338,7 @@ class Resets:
         self.mods = mods
         self.reset: list[str] = []
         self.calls: list[str] = []
+        self.unconditional: list[str] = []      # reset calls executed on EVERY path through build()/build_inner()
         self.visited: set[tuple[str, str]] = set()
 
     def add(self, gid: str) -> None:
@@ -439,6 +440,24 @@ class Resets:
                     if nm not in self.calls:
                         self.calls.append(nm)
                     self.follow(b, n.func, None)
+            # A call under an `if` / loop / handler / nested def, or after a `return`, is not a reset: only an expression
+            # statement directly in the function body (or in the body of a top-level `with` / `try:` block, whose
+            # statements run unless something raises) with no earlier `return` anywhere in the function counts.
+            def straight(body: list[ast.stmt]):
+                for st in body:
+                    yield st
+                    if isinstance(st, ast.With):
+                        yield from straight(st.body)
+                    elif isinstance(st, ast.Try):
+                        yield from straight(st.body)
+            returns = [r.lineno for r in ast.walk(fn) if isinstance(r, ast.Return)
+                       and not any(r in ast.walk(d) for d in ast.walk(fn) if isinstance(d, (ast.FunctionDef, ast.Lambda)) and d is not fn)]
+            for st in straight(fn.body):
+                if isinstance(st, ast.Expr) and isinstance(st.value, ast.Call) and "reset" in ast.unparse(st.value.func):
+                    if not any(ln < st.lineno for ln in returns):
+                        nm = ast.unparse(st.value.func)
+                        if nm not in self.unconditional:
+                            self.unconditional.append(nm)
 
 
 # ------------------------------------------------------------------ the sorted choke points, syntactically
@@ -550,6 +569,154 @@ def render_sites() -> str:
     return "\n".join(out)
 
 
+# ------------------------------------------------------------------ per-instance containers / memos of the build
+
+INSTANCE_CLASSES = [("mypy/build.py", "BuildManager", ["__init__"], ("manager", "mgr")),
+                    ("mypy/modulefinder.py", "FindModuleCache", ["__init__", "clear"], ("find_module_cache", "fmc", "finder")),
+                    ("mypy/fscache.py", "FileSystemCache", ["__init__", "flush"], ("fscache",))]
+
+
+def container_fields(cls: ast.ClassDef, methods: list[str]) -> list[str]:
+    out: list[str] = []
+    for m in cls.body:
+        if isinstance(m, ast.FunctionDef) and m.name in methods:
+            for st in ast.walk(m):
+                tg = val = None
+                ann = ""
+                if isinstance(st, ast.Assign) and len(st.targets) == 1:
+                    tg, val = st.targets[0], st.value
+                elif isinstance(st, ast.AnnAssign) and st.value is not None:
+                    tg, val, ann = st.target, st.value, ast.unparse(st.annotation)
+                if isinstance(tg, ast.Attribute) and isinstance(tg.value, ast.Name) and tg.value.id == "self":
+                    if isinstance(val, (ast.Dict, ast.Set, ast.List)) or (isinstance(val, ast.Call) and call_name(val.func) in CONTAINER_CALLS) \
+                            or re.search(r"\b(dict|set|list|defaultdict)\[", ann):
+                        if tg.attr not in out:
+                            out.append(tg.attr)
+    return out
+
+
+def write_events(trees: dict[str, ast.AST]) -> list[tuple[str, str, str | None, tuple[str, ...], str]]:
+    """One pass: every statement inside a function that stores into / mutates an attribute-chain object
+    (local aliases `x = a.b.c` resolved): (file, function qualname, enclosing class, chain, statement text)."""
+    ev: list[tuple[str, str, str | None, tuple[str, ...], str]] = []
+    for rel, tree in trees.items():
+        def visit(body: list[ast.stmt], qual: str, in_cls: str | None) -> None:
+            for n in body:
+                if isinstance(n, ast.ClassDef):
+                    visit(n.body, n.name, n.name)
+                elif isinstance(n, (ast.FunctionDef, ast.AsyncFunctionDef)):
+                    q = f"{qual}.{n.name}" if qual else n.name
+                    nodes = list(ast.walk(n))
+                    alias: dict[str, tuple[str, ...]] = {}
+                    for x in nodes:
+                        if isinstance(x, ast.Assign) and len(x.targets) == 1 and isinstance(x.targets[0], ast.Name) \
+                                and isinstance(x.value, ast.Attribute):
+                            c = chain(x.value)
+                            if c and len(c) >= 2:
+                                alias[x.targets[0].id] = c
+
+                    def res(c: tuple[str, ...] | None) -> tuple[str, ...] | None:
+                        if c and len(c) == 1:
+                            return alias.get(c[0])
+                        return c
+                    for x in nodes:
+                        cs: list[tuple[str, ...] | None] = []
+                        if isinstance(x, (ast.Assign, ast.AugAssign, ast.Delete)):
+                            tg = x.targets if isinstance(x, (ast.Assign, ast.Delete)) else [x.target]
+                            for t in tg:
+                                if isinstance(t, ast.Subscript):
+                                    cs.append(res(chain(t.value)))
+                                elif isinstance(x, ast.AugAssign):
+                                    cs.append(res(chain(t)))
+                        elif isinstance(x, ast.Expr) and isinstance(x.value, ast.Call) and isinstance(x.value.func, ast.Attribute) \
+                                and x.value.func.attr in MUTATORS:
+                            cs.append(res(chain(x.value.func.value)))
+                        for c in cs:
+                            if c and len(c) >= 2:
+                                ev.append((rel, q, in_cls, c, " ".join(ast.unparse(x).split())[:150]))
+        visit(tree.body, "", None)
+    return ev
+
+
+def write_sites(attr: str, rel_cls: str, cname: str, bases: tuple[str, ...], events: list) -> list[str]:
+    sites = []
+    for rel, q, in_cls, c, text in events:
+        if c[-1] != attr:
+            continue
+        if c[-2] == "self":
+            if not (rel == rel_cls and in_cls == cname):
+                continue
+        elif c[-2] not in bases:
+            continue
+        sites.append(f"{rel}:{q}: {text}")
+    return sorted(set(sites))
+
+
+def instance_state() -> dict:
+    trees: dict[str, ast.AST] = {}
+    for rel in all_modules():
+        trees[rel] = ast.parse(vlib.read_repo(rel))
+    fields: list[tuple[str, list[str]]] = []
+    events = write_events(trees)
+    for rel, cname, methods, bases in INSTANCE_CLASSES:
+        cls = [n for n in trees[rel].body if isinstance(n, ast.ClassDef) and n.name == cname]
+        if not cls:
+            raise Unsupported(f"{rel}: class {cname} not found")
+        for f in container_fields(cls[0], methods):
+            fields.append((f"{cname}.{f}", write_sites(f, rel, cname, bases, events)))
+    b = trees["mypy/build.py"]
+    bi = find_func(b, "build_inner")
+    creators = [
+        ("build.build_inner constructs a new BuildManager on its straight-line path",
+         any(isinstance(st, ast.Assign) and isinstance(st.value, ast.Call) and call_name(st.value.func) == "BuildManager" for st in bi.body)),
+        ("build.BuildManager.__init__ constructs a new FindModuleCache",
+         any(isinstance(st, ast.Assign) and isinstance(st.value, ast.Call) and call_name(st.value.func) == "FindModuleCache"
+             and ast.unparse(st.targets[0]) == "self.find_module_cache" for st in find_func(b, "BuildManager.__init__").body)),
+        ("build.build / build_inner creates a FileSystemCache when the caller passes none",
+         any(isinstance(st, ast.Assign) and "FileSystemCache()" in ast.unparse(st.value) and ast.unparse(st.targets[0]) == "fscache"
+             for fn in ("build", "build_inner") for st in find_func(b, fn).body)),
+        ("main.main creates a FileSystemCache per call",
+         any(isinstance(st, ast.Assign) and ast.unparse(st.value) == "FileSystemCache()" for st in ast.walk(find_func(trees["mypy/main.py"], "main")))),
+    ]
+    return {"fields": fields, "creators": creators}
+
+
+def load_instance_classification() -> dict[str, dict]:
+    try:
+        return json.load(open(CLASS_JSON)).get("instance_state", {})
+    except FileNotFoundError:
+        return {}
+
+
+def coq_list(xs: list[str]) -> str:
+    return "[" + "; ".join(coq_str(x) for x in xs) + "]"
+
+
+def render_instance(ist: dict, cl: dict[str, dict]) -> str:
+    out = ["(* GENERATED by tools/extractors/t10.py from mypy/build.py, modulefinder.py, fscache.py, main.py and"
+           " tools/harness/globals_class.json (section instance_state) -- do not edit *)",
+           "From Coq Require Import List String Bool.", "Import ListNotations.", "Open Scope string_scope.", "",
+           "Inductive iclass := PerBuildInstance | OrderSensitiveMemo.", "",
+           "(* container attributes of the per-build objects, with every statement that writes into them *)",
+           "Definition instance_fields : list (string * list string) := ["]
+    out.append(";\n".join(f"  ({coq_str(f)}, {coq_list(w)})" for f, w in ist["fields"]))
+    out.append("].\n\n(* is each owner object created anew for every build? *)\nDefinition instance_creators : list (string * bool) := [")
+    out.append(";\n".join(f"  ({coq_str(n)}, {'true' if b else 'false'})" for n, b in ist["creators"]))
+    out.append("].\n\n(* reviewed classification; for memos: the reviewed write sites *)")
+    out.append("Definition instance_classification : list (string * (iclass * list string)) := [")
+    rows = []
+    for f, v in cl.items():
+        c = {"per_build_instance": "PerBuildInstance", "order_sensitive_memo": "OrderSensitiveMemo"}.get(v.get("class", ""))
+        if c is None:
+            raise Unsupported(f"globals_class.json instance_state: {f}: unknown class {v.get('class')!r}")
+        if c == "OrderSensitiveMemo" and not v.get("reason"):
+            raise Unsupported(f"globals_class.json instance_state: {f}: order_sensitive_memo needs a reason")
+        rows.append(f"  ({coq_str(f)}, ({c}, {coq_list(v.get('writes', []))}))")
+    out.append(";\n".join(rows))
+    out.append("].\n")
+    return "\n".join(out)
+
+
 def coq_str(s: str) -> str:
     return '"' + s.replace('"', '""') + '"'
 
@@ -579,7 +746,7 @@ def extract() -> dict:
             globs.append((gid, kind, sites))
     rs = Resets(mods)
     rs.from_build()
-    return {"globals": globs, "reset": rs.reset, "calls": rs.calls, "modules": modules}
+    return {"globals": globs, "reset": rs.reset, "calls": rs.calls, "unconditional": rs.unconditional, "modules": modules}
 
 
 def load_classification() -> dict[str, dict[str, str]]:
@@ -602,6 +769,9 @@ def render(ex: dict, cl: dict[str, dict[str, str]]) -> str:
     out.append(";\n".join("  " + coq_str(r) for r in ex["reset"]))
     out.append("].\n\nDefinition build_reset_calls : list string := [")
     out.append(";\n".join("  " + coq_str(r) for r in ex["calls"]))
+    out.append("].\n\n(* the reset calls that are executed on every path (not under if / loop / handler / after a return) *)")
+    out.append("Definition build_reset_calls_unconditional : list string := [")
+    out.append(";\n".join("  " + coq_str(r) for r in ex["unconditional"]))
     out.append("].\n\n(* tools/harness/globals_class.json *)\nDefinition classification : list (string * gclass) := [")
     rows = []
     for g, v in cl.items():
@@ -622,7 +792,9 @@ def generate() -> dict[str, str]:
     vlib.write_if_changed(os.path.join(vlib.GEN, "Globals.v"), txt)
     st = render_sites()
     vlib.write_if_changed(os.path.join(vlib.GEN, "SortedSites.v"), st)
-    return {"Globals.v": txt, "SortedSites.v": st}
+    it = render_instance(instance_state(), load_instance_classification())
+    vlib.write_if_changed(os.path.join(vlib.GEN, "InstanceState.v"), it)
+    return {"Globals.v": txt, "SortedSites.v": st, "InstanceState.v": it}
 
 
 if __name__ == "__main__":
